@@ -196,6 +196,25 @@ def gen_cycle(rng: Rng) -> dict:
     return cls_case(cls, up, down, ops)
 
 
+def entry_cases() -> List[dict]:
+    """round 6, dynamic cross-check of the (lexical) entry-point table: for EVERY node class and EVERY interface it carries,
+    frames of three kinds are handed straight to the interface while the node is ON (control: they must reach the node's
+    receive_frame through an enabled, linked interface), SHUTTING_DOWN, OFF and BOOTING (they must stop at the interface)"""
+    out = []
+    for cls in ALL_CLASSES:
+        base = cls_case(cls, 3, 3, [])
+        ports = {"switch": [1, 2, 3], "router": [1, 2, 3], "firewall": [1, 2, 3], "wireless-router": [1, 2]}.get(cls, [1])
+        probe_all = [{"op": "inject", "node": 0, "nic": p, "frame": f} for p in ports for f in ("udp", "icmp", "bcast")]
+        ops = list(probe_all)                                   # ON
+        ops += [{"op": "req", "node": 0, "key": "shutdown"}] + probe_all + [{"op": "tick"}] + probe_all   # SHUTTING_DOWN
+        ops += [{"op": "tick"}] * 3 + probe_all                 # OFF
+        ops += [{"op": "req", "node": 0, "key": "startup"}] + probe_all + [{"op": "tick"}] + probe_all    # BOOTING
+        ops += [{"op": "tick"}] * 3 + probe_all                 # ON again
+        base["ops"] = ops
+        out.append(base)
+    return out
+
+
 def gen_sessions(rng: Rng) -> dict:
     """item 2, the one piece of per-tick work that continues while a node is not ON: `UserSessionManager.pre_timestep` times
     idle sessions out whatever the power state.  Log users in (locally, and remotely from the peer), switch the node off and on
@@ -970,9 +989,18 @@ def run_case(case: dict) -> Tuple[List[str], List[str], List[str], Dict[str, int
                   n = nodes[op["node"]]
                   ni = n.network_interface.get(op["nic"])
                   if ni is not None:
-                      ok = _inject(ni)
+                      before_up = dict(probe.upper_events)
+                      ok = _inject(ni, op.get("frame", "udp"))
                       lines.append(f"in {op['node']} {op['nic'] - 1}")
                       impl.append("1" if ok else "0")
+                      # dynamic cross-check of the entry-point table: did this hand-over reach the node's receive_frame?
+                      climbed = sum(v - before_up.get(k2, 0) for k2, v in probe.upper_events.items() if k2.startswith("node:"))
+                      key = (f"entry:{type(ni).__name__}:{'ON' if n.operating_state == NodeOperatingState.ON else n.operating_state.name}:"
+                             f"{'enabled' if ni.enabled else 'disabled'}:{'reached-node' if climbed else 'stopped-at-interface'}")
+                      probe.frame_events[key] = probe.frame_events.get(key, 0) + 1
+                      if climbed and not ni.enabled:
+                          oracle.append(f"frame-handed-to-node-by-disabled-interface|{type(ni).__name__}|{cls_of[op['node']]} "
+                                        f"{n.operating_state.name} frame={op.get('frame', 'udp')}")
                   traces()
               elif kind == "appinstall":   # kept for the stored corpus: `Application.install()` through the Python API
                   n = nodes[op["node"]]
@@ -1063,16 +1091,24 @@ def _clocks(n):
             n.node_scan_countdown, n.red_scan_countdown)
 
 
-def _inject(ni) -> bool:
-    """a unicast UDP frame to a closed port, addressed to the interface (switch ports take anything)"""
+def _inject(ni, what: str = "udp") -> bool:
+    """hand a frame straight to an interface: `udp` = unicast UDP to a closed port, `icmp` = unicast echo request (climbs to
+    the ICMP service of an ON node), `bcast` = UDP to the broadcast MAC (switch ports take anything)"""
     from ipaddress import IPv4Address
+    from primaite.simulator.network.protocols.icmp import ICMPPacket, ICMPType
     from primaite.simulator.network.transmission.data_link_layer import EthernetHeader, Frame
     from primaite.simulator.network.transmission.network_layer import IPPacket
     from primaite.simulator.network.transmission.transport_layer import UDPHeader
     dst_ip = getattr(ni, "ip_address", IPv4Address("192.168.1.77"))
-    f = Frame(ethernet=EthernetHeader(src_mac_addr="aa:bb:cc:dd:ee:01", dst_mac_addr=ni.mac_address),
-              ip=IPPacket(src_ip_address=IPv4Address("192.168.1.99"), dst_ip_address=dst_ip, protocol="udp"),
-              udp=UDPHeader(src_port=4444, dst_port=4444))
+    dst_mac = "ff:ff:ff:ff:ff:ff" if what == "bcast" else ni.mac_address
+    if what == "icmp":
+        f = Frame(ethernet=EthernetHeader(src_mac_addr="aa:bb:cc:dd:ee:01", dst_mac_addr=dst_mac),
+                  ip=IPPacket(src_ip_address=IPv4Address("192.168.1.99"), dst_ip_address=dst_ip, protocol="icmp"),
+                  icmp=ICMPPacket(icmp_type=ICMPType.ECHO_REQUEST, identifier=7, sequence=1))
+    else:
+        f = Frame(ethernet=EthernetHeader(src_mac_addr="aa:bb:cc:dd:ee:01", dst_mac_addr=dst_mac),
+                  ip=IPPacket(src_ip_address=IPv4Address("192.168.1.99"), dst_ip_address=dst_ip, protocol="udp"),
+                  udp=UDPHeader(src_port=4444, dst_port=4444))
     return bool(ni.receive_frame(f))
 
 
